@@ -129,6 +129,14 @@ def weaken_keep(f):
     return f
 
 
+def promote(f):
+    """literals of unrecognised conditions that decide a severity / certainty (`c ? Severity::error : Severity::warning`) are
+    kept in path facts: '~key' -> '?key'"""
+    if not any(l[0] == 'l' and l[1].startswith("~") for c in f for l in c):
+        return f
+    return frozenset(frozenset(('l', "?" + l[1][1:], l[2]) if (l[0] == 'l' and l[1].startswith("~")) else l for l in c) for c in f)
+
+
 def atom(a):
     return frozenset([frozenset([('o', a)])])
 
@@ -138,6 +146,8 @@ def lit(key, pol=True):
 
 
 def babs_lit(key):
+    if key == "NULL:nonzero":
+        return B_FALSE
     return (lit(key, True), lit(key, False))
 
 
@@ -202,7 +212,17 @@ def is_settings_type(ty):
 
 
 def tracked(ty):
-    return (is_bool(ty) and "*" not in ty) or (enum_kind(ty) is not None and "*" not in ty) or is_pure_obj(ty)
+    """every local variable gets a new version when it is assigned (its keys — nonzero, eq(..), accessor literals — then
+    refer to the new value)"""
+    return True
+
+
+def var_init(v):
+    """initialiser expression of a VarDecl (clang marks its presence with the key `init`)"""
+    if "init" not in v:
+        return None
+    ks = [c for c in kids(v) if not c.get("kind", "").endswith("Attr") and c.get("kind") not in ("FullComment",)]
+    return ks[-1] if ks else None
 
 
 def kids(n):
@@ -250,9 +270,10 @@ class Frame:
         self.entry_pc = TT
         self.switch_pc = []
         self.in_lambda = 0
+        self.strvars = {}
 
     def vkey(self, did):
-        return "%s:%s#%s@%d" % (self.tag, self.names.get(did, "?"), str(did)[-5:], self.ver.get(did, 0))
+        return "%s:%s#%s@%d" % (self.tag, self.names.get(did, "?"), str(did), self.ver.get(did, 0))
 
 
 class Analyzer:
@@ -285,6 +306,7 @@ class Analyzer:
                 self.defaults.setdefault(rec["key"], rec["defaults"])
         self.memo = {}
         self._av_cache = {}
+        self._strvars = {}
         self.rows = {}              # (file, line, fnshort, ids, sevleaf, cert) -> DNF
         self.site_info = {}
         self.calls_to = {}          # callee key -> set(caller key)
@@ -479,7 +501,7 @@ class Analyzer:
     # ---- expression evaluation -----------------------------------------------------------------------------------
     def uid(self, n, fr):
         """key of an unrecognised condition / expression: unique per AST node ('~' = never added to path facts, see pcify)"""
-        return "~%s:e%s@L%s" % (fr.tag, str(n.get("id", ""))[-6:], n.get("ln", "?"))
+        return "~%s:e%s@L%s" % (fr.tag, str(n.get("id", "")), n.get("ln", "?"))
 
     def objkey(self, n, fr):
         n = strip(n)
@@ -501,6 +523,27 @@ class Analyzer:
             ks = kids(n)
             if len(ks) == 2 and strip(ks[0]).get("ref", {}).get("name") in ("operator*", "operator->"):
                 return self.objkey(ks[1], fr)
+        return None
+
+    def stable_key(self, n, fr):
+        """operand of an (in)equality whose value is fixed while its variable keeps its version"""
+        k = n.get("kind")
+        if k == "DeclRefExpr":
+            r = n.get("ref", {})
+            if r.get("kind") == "EnumConstantDecl":
+                return "enum:" + str(r.get("name"))
+            if r.get("kind") in ("VarDecl", "ParmVarDecl") and r.get("id") not in fr.volatile:
+                fr.names.setdefault(r.get("id"), r.get("name"))
+                b = fr.bind.get(r.get("id"))
+                if b and b[0] == 'obj':
+                    return b[1]
+                if b and b[0] == 'const':
+                    return "lit:" + str(b[1])
+                return fr.vkey(r.get("id"))
+        if k in ("IntegerLiteral", "CharacterLiteral"):
+            return "lit:" + str(n.get("value"))
+        if k == "CXXBoolLiteralExpr":
+            return "lit:" + str(n.get("value"))
         return None
 
     def settings_path(self, n):
@@ -536,6 +579,7 @@ class Analyzer:
         if k == "ConditionalOperator":
             c, a, b = kids(n)
             cb = self.bool_abs(c, fr)
+            cb = (promote(cb[0]), promote(cb[1]))
             return [(f_and(cb[0], p), l) for p, l in self.enum_abs(a, fr)] + [(f_and(cb[1], p), l) for p, l in self.enum_abs(b, fr)]
         if k in ("CXXStaticCastExpr", "CStyleCastExpr", "CXXFunctionalCastExpr") and kids(n) and enum_kind(kids(n)[-1].get("ty", "")):
             return self.enum_abs(kids(n)[-1], fr)
@@ -578,8 +622,10 @@ class Analyzer:
             if inner.get("kind") == "DeclRefExpr" and inner.get("ref", {}).get("kind") in ("VarDecl", "ParmVarDecl"):
                 did = inner["ref"].get("id")
                 fr.names.setdefault(did, inner["ref"].get("name"))
-                if did not in fr.volatile and is_pure_obj(inner["ref"].get("ty", "")):
-                    return babs_lit(fr.vkey(did) + ":nonzero")
+                if did not in fr.volatile and "*" in inner["ref"].get("ty", ""):
+                    ok = self.objkey(inner, fr)
+                    if ok:
+                        return babs_lit(ok + ":nonzero")
             if inner.get("kind") in ("IntegerLiteral",):
                 return B_FALSE if str(inner.get("value")) == "0" else B_TRUE
             if inner.get("kind") in ("CXXNullPtrLiteralExpr", "GNUNullExpr"):
@@ -622,6 +668,26 @@ class Analyzer:
                     return eqv if op == "==" else b_not(eqv)
             if op == ",":
                 return self.bool_abs(b, fr)
+            if op in ("==", "!="):
+                sa, sb = strip(a), strip(b)
+                nulls = ("CXXNullPtrLiteralExpr", "GNUNullExpr")
+                r = None
+                if sb.get("kind") in nulls or (sb.get("kind") == "IntegerLiteral" and str(sb.get("value")) == "0" and "*" in sa.get("ty", "")):
+                    ok = self.objkey(sa, fr)
+                    if ok:
+                        r = b_not(babs_lit(ok + ":nonzero"))
+                elif sa.get("kind") in nulls:
+                    ok = self.objkey(sb, fr)
+                    if ok:
+                        r = b_not(babs_lit(ok + ":nonzero"))
+                else:
+                    ka, kb = self.stable_key(sa, fr), self.stable_key(sb, fr)
+                    if ka and kb and ka.startswith("lit:") and kb.startswith("lit:"):
+                        r = B_TRUE if ka == kb else B_FALSE
+                    elif ka and kb:
+                        r = babs_lit("eq(%s,%s)" % tuple(sorted([ka, kb])))
+                if r is not None:
+                    return r if op == "==" else b_not(r)
             return babs_lit(self.uid(n, fr))
         if k == "ConditionalOperator":
             c, a, b = kids(n)
@@ -776,10 +842,7 @@ class Analyzer:
         fr.names[did] = v.get("name")
         fr.ver.setdefault(did, 0)
         ty = v.get("ty", "")
-        init = None
-        for c in kids(v):
-            if c.get("kind", "").endswith("Expr") or c.get("kind", "").endswith("Operator") or c.get("kind", "").endswith("Literal"):
-                init = c
+        init = var_init(v)
         if init is not None:
             self.visit_expr(init, fr, pc, out)
         if did in fr.volatile:
@@ -906,52 +969,120 @@ class Analyzer:
             return
         for c in kids(n):
             self.visit_expr(c, fr, pc, out)
-        # an lvalue use of a tracked variable that is not a plain read: unknown write at this point
-        if not (k == "ImplicitCastExpr" and n.get("castKind") == "LValueToRValue"):
-            for c in kids(n):
-                cc = c
-                while cc.get("kind") == "ParenExpr" and kids(cc):
-                    cc = kids(cc)[0]
-                if cc.get("kind") == "DeclRefExpr":
-                    r = cc.get("ref", {})
-                    ty = r.get("ty", "")
-                    if r.get("kind") in ("VarDecl", "ParmVarDecl") and (is_bool(ty) or enum_kind(ty)) and "*" not in ty and \
-                            not re.search(r"\bconst\b", ty):
-                        self.havoc(fr, [r.get("id")])
+        self.escapes(n, kids(n), fr)
         return
 
-    def ids_of(self, n, fr):
-        """possible id strings of the id argument, or ['*']"""
+    def escapes(self, n, children, fr):
+        """an lvalue use of a tracked variable that is not a plain read (bound to a reference parameter, address taken, ...):
+        unknown write at this point"""
+        if n.get("kind") == "ImplicitCastExpr" and n.get("castKind") == "LValueToRValue":
+            return
+        for c in children:
+            cc = c
+            while cc.get("kind") == "ParenExpr" and kids(cc):
+                cc = kids(cc)[0]
+            if cc.get("kind") == "DeclRefExpr":
+                r = cc.get("ref", {})
+                ty = r.get("ty", "")
+                if r.get("kind") in ("VarDecl", "ParmVarDecl") and (is_bool(ty) or enum_kind(ty)) and "*" not in ty and \
+                        not re.search(r"\bconst\b", ty):
+                    self.havoc(fr, [r.get("id")])
+
+    def ids_of(self, n, fr, depth=0):
+        """possible id strings of an id expression: list of patterns, a trailing '*' = any suffix, ['*'] = unknown"""
         n = strip(n)
         k = n.get("kind")
+        if depth > 12:
+            return ['*']
         if k == "StringLiteral":
-            return [n.get("value", "").strip('"')]
-        if k in ("CXXConstructExpr", "CXXFunctionalCastExpr", "CXXTemporaryObjectExpr", "CXXStaticCastExpr"):
+            v = n.get("value", "")
+            return [v[1:-1] if len(v) >= 2 and v[0] == '"' else v]
+        if k in ("CXXConstructExpr", "CXXFunctionalCastExpr", "CXXTemporaryObjectExpr", "CXXStaticCastExpr", "CXXMemberCallExpr") and k != "CXXMemberCallExpr":
             ks = [c for c in kids(n) if c.get("kind") != "CXXDefaultArgExpr"]
             if len(ks) == 1:
-                return self.ids_of(ks[0], fr)
+                return self.ids_of(ks[0], fr, depth + 1)
+            if not ks and "string" in (n.get("ty", "")):
+                return [""]
         if k == "ConditionalOperator":
             c, a, b = kids(n)
-            return sorted(set(self.ids_of(a, fr) + self.ids_of(b, fr)))
+            return sorted(set(self.ids_of(a, fr, depth + 1) + self.ids_of(b, fr, depth + 1)))
+        if k == "CXXOperatorCallExpr":
+            ks = kids(n)
+            op = strip(ks[0]).get("ref", {}).get("name") if ks else None
+            if op == "operator+" and len(ks) == 3:
+                la, lb = self.ids_of(ks[1], fr, depth + 1), self.ids_of(ks[2], fr, depth + 1)
+                out = set()
+                for x in la:
+                    for y in lb:
+                        out.add(x if x.endswith("*") else x + y)
+                if len(out) > 24:
+                    return ['*']
+                return sorted(out)
         if k in ("CallExpr", "CXXMemberCallExpr"):
             ks = kids(n)
             c = strip(ks[0])
             nm = c.get("name") or c.get("ref", {}).get("name")
             if nm == "getMessageId" and len(ks) == 3:
-                base = self.ids_of(ks[2], fr)
+                base = self.ids_of(ks[2], fr, depth + 1)
                 if base != ['*']:
                     o = []
                     for b in base:
                         o += [b, b + "Cond", "safe" + b[:1].upper() + b[1:]]
                     return sorted(set(o))
             if nm == "c_str" and c.get("kind") == "MemberExpr" and kids(c):
-                return self.ids_of(kids(c)[0], fr)
+                return self.ids_of(kids(c)[0], fr, depth + 1)
+            if nm == "move" and len(ks) == 2:
+                return self.ids_of(ks[1], fr, depth + 1)
         if k == "DeclRefExpr":
             did = n.get("ref", {}).get("id")
             v = fr.bind.get(("ids", did))
             if v:
-                return v
+                return list(v)
+            v = fr.strvars.get(did)
+            if v:
+                return list(v)
+        if k in ("CXXNullPtrLiteralExpr", "GNUNullExpr"):
+            return []
         return ['*']
+
+    def string_vars(self, fn):
+        """id-like local string variables: patterns from the initialiser and every assigned literal; `+=` makes them prefixes"""
+        decls, assigned, appended = {}, {}, set()
+        fr = Frame(fn, "ids")
+        fr.strvars = {}
+        for x in walk(fn.body):
+            k = x.get("kind")
+            if k == "VarDecl" and re.search(r"\bstring\b|char \*|char\*|char\s*\[", x.get("ty", "")):
+                decls[x.get("id")] = var_init(x)
+            elif k == "CXXOperatorCallExpr" and len(kids(x)) == 3:
+                op = strip(kids(x)[0]).get("ref", {}).get("name")
+                t = strip(kids(x)[1])
+                if t.get("kind") == "DeclRefExpr" and op in ("operator=", "operator+="):
+                    did = t.get("ref", {}).get("id")
+                    if op == "operator+=":
+                        appended.add(did)
+                    else:
+                        assigned.setdefault(did, []).append(kids(x)[2])
+            elif k == "BinaryOperator" and x.get("opcode") == "=" and len(kids(x)) == 2:
+                t = strip(kids(x)[0])
+                if t.get("kind") == "DeclRefExpr" and "char" in t.get("ref", {}).get("ty", ""):
+                    assigned.setdefault(t.get("ref", {}).get("id"), []).append(kids(x)[1])
+        out = {}
+        for did, init in decls.items():
+            pats = []
+            srcs = ([init] if init is not None else []) + assigned.get(did, [])
+            if not srcs:
+                continue
+            for e in srcs:
+                pats += self.ids_of(e, fr)
+            pats = sorted(set(pats))
+            if '*' in pats or not pats:
+                continue
+            if did in appended:
+                pats = sorted(set(p if p.endswith("*") else p + "*" for p in pats))
+            out[did] = pats
+            fr.strvars[did] = pats
+        return out
 
     def emit(self, fr, n, pc, sev_leaves, cert_leaves, ids, kind, out):
         fn = fr.fn
@@ -997,6 +1128,7 @@ class Analyzer:
                     self.visit_expr(c, fr, pc, out)
         for a in args:
             self.visit_expr(a, fr, pc, out)
+        self.escapes(n, args, fr)
         if name == "reportError" and (cls == "Check" or (cls or "").startswith("Check")):
             si = next((i for i, a in enumerate(args) if enum_kind(strip(a).get("ty", "") or a.get("ty", "")) == "sev"), None)
             if si is None:
@@ -1041,8 +1173,16 @@ class Analyzer:
                 binds.append(('bool', self.bool_abs(a, fr)))
             elif enum_kind(ty) and "*" not in ty:
                 binds.append(('enum', tuple(self.enum_abs(a, fr))))
-            elif is_pure_obj(ty) and ("*" in ty or "&" in ty):
+            elif base_type(ty) in ("int", "unsigned int", "nonneg int", "long", "unsigned long", "long long", "unsigned", "std::size_t", "size_t") and \
+                    "*" not in ty and "&" not in ty and strip(a).get("kind") == "IntegerLiteral":
+                binds.append(('const', str(strip(a).get("value"))))
+            elif re.search(r"\bstring\b|char \*|char\*|char \[", ty) or (re.search(r"\bchar\b", ty) and "[" in ty):
+                v = self.ids_of(a, fr)
+                binds.append(('ids', tuple(v)) if v and v != ['*'] else None)
+            elif (is_pure_obj(ty) and "&" in ty) or ty.rstrip().endswith("*") or ty.rstrip().endswith("*const"):
                 ok = self.objkey(a, fr)
+                if ok is None and strip(a).get("kind") in ("CXXNullPtrLiteralExpr", "GNUNullExpr"):
+                    ok = "NULL"
                 binds.append(('obj', ok) if ok else None)
             else:
                 binds.append(None)
@@ -1097,6 +1237,9 @@ class Analyzer:
         fr.stack = stack
         fr.all_assigned = self.assigned_vars(fn.body)
         fr.switch_vars = []
+        if fn.key not in self._strvars:
+            self._strvars[fn.key] = self.string_vars(fn)
+        fr.strvars = self._strvars[fn.key]
         for i, p in enumerate(fn.params):
             did = p.get("id")
             fr.names[did] = p.get("name")
@@ -1123,6 +1266,10 @@ class Analyzer:
             elif b and b[0] == 'enum':
                 fr.bind[did] = ('enum', list(b[1]))
             elif b and b[0] == 'obj':
+                fr.bind[did] = b
+            elif b and b[0] == 'ids':
+                fr.bind[("ids", did)] = list(b[1])
+            elif b and b[0] == 'const' and did not in fr.all_assigned:
                 fr.bind[did] = b
         out = []
         self.exec_stmt(fn.body, fr, TT, out)
@@ -1205,7 +1352,8 @@ class Analyzer:
                     merged[did] = ('bool', (f_and(own[0], f_or(f_and(weaken_keep(end_t), vt[0]), f_and(weaken_keep(end_e), ve[0]))),
                                             f_and(own[1], f_or(f_and(weaken_keep(end_t), vt[1]), f_and(weaken_keep(end_e), ve[1])))))
                 elif kind == 'enum' and bt and be and bt[0] == 'enum' and be[0] == 'enum':
-                    lv = [(f_and(cb[0], weaken_keep(end_t), p), l) for p, l in bt[1]] + [(f_and(cb[1], weaken_keep(end_e), p), l) for p, l in be[1]]
+                    lv = [(f_and(promote(cb[0]), weaken_keep(end_t), p), l) for p, l in bt[1]] + \
+                         [(f_and(promote(cb[1]), weaken_keep(end_e), p), l) for p, l in be[1]]
                     merged[did] = ('enum', [(p, l) for p, l in lv if p != FF])
             fr.bind = merged
         return f_or(end_t, end_e)
